@@ -41,7 +41,9 @@ ResolveCall(c) == IF "hx" \in DOMAIN c THEN [c EXCEPT !.h = c.hx]
                   ELSE IF "h" \in DOMAIN c THEN [c EXCEPT !.h = HL[@]] ELSE c
 FrameTokens(f) == IF "hx" \in DOMAIN f THEN f.hx ELSE HL[f.h]
 \* frames of the harness peer (its encoder uses the table size the model says a conforming peer uses: H2!DecodeFailure)
-ResolveFrame(f, ep) == IF "h" \in DOMAIN f THEN [f EXCEPT !.h = FrameTokens(f)] ELSE f
+ResolveFrame(f, ep) == IF "h" \in DOMAIN f THEN [f EXCEPT !.h = FrameTokens(f)]
+                       ELSE IF f.t = "RAW" THEN f @@ [gt |-> HL["req_get"][1]]     \* the field a raw block octet decodes to
+                       ELSE f
 
 \* ---------------------------------------------------------------- constructors for scenario alphabets
 AH(sid, h, es)        == [t |-> "HEADERS", sid |-> sid, es |-> es, h |-> h, pr |-> <<>>, blk |-> "ok"]
@@ -59,6 +61,8 @@ AAlt(sid, org, fld)   == [t |-> "ALT", sid |-> sid, org |-> org, fld |-> fld]
 APP(sid, pid, h)      == [t |-> "PP", sid |-> sid, pid |-> pid, h |-> h, blk |-> "ok"]
 ACont(sid)            == [t |-> "CONT", sid |-> sid]
 AUnknown(sid)         == [t |-> "UNKNOWN", sid |-> sid]
+\* a frame given by its octets' structure (the frame layer, H2!RawParse); extra: what the payload holds
+ARaw(typ, fl, sid, len, extra) == extra @@ [t |-> "RAW", typ |-> typ, fl |-> fl, sid |-> sid, len |-> len, pad |-> -1]
 CInit(x)              == [a |-> "call", x |-> x, c |-> [op |-> "init"]]
 CUpg(from, pairs)     == [op |-> "upg", src |-> from, s |-> pairs]
 CCall(x, c)           == [a |-> "call", x |-> x, c |-> c]
@@ -174,7 +178,10 @@ Pre      == src[1][last.x]
 Post     == eps[last.x]
 Clean    == IsStep /\ last.dev = {}
 AllClean == \A x \in Roles : eps[x].dev = {}
-InFrames == CASE last.a = "recv" -> [i \in 1..Len(last.fs) |-> ResolveFrame(last.fs[i], Pre)]
+\* the frames of the step as the frame layer reads them (a raw frame it refuses, or a fragment, is of no interest here)
+Cooked(f) == IF f.t # "RAW" THEN f
+             ELSE LET p == RawParse(f, 16777215) IN IF p.k = "ok" /\ p.f.t # "FRAG" THEN p.f ELSE [t |-> "NONE"]
+InFrames == CASE last.a = "recv" -> [i \in 1..Len(last.fs) |-> Cooked(ResolveFrame(last.fs[i], Pre))]
               [] last.a = "dlv"  -> SubSeq(src[2][last.x], 1, last.k)
               [] OTHER           -> <<>>
 OneFrame(ty) == HasSrc /\ last.a = "recv" /\ Len(last.fs) = 1 /\ last.fs[1].t = ty
